@@ -209,11 +209,17 @@ def scan_streams(limit, deep):
     out = []
     for sq in seqs:
         for k, n in tails:
-            out.append(dict(units=[dict(b=b, e=e) for b, e in sq], tail=dict(kind=k, n=n)))
+            out.append(dict(units=[dict(b=b, e=e, c=0) for b, e in sq], tail=dict(kind=k, n=n)))
+    if limit <= 10000:
+        # heartbeats: comment-only blocks, each a token of its own, more of them than the limit holds, then an event
+        n = limit // 15 + 20
+        hb = [dict(b=0, e=15, c=1) for _ in range(n)]
+        out.append(dict(units=hb + [dict(b=0, e=20, c=0)], tail=dict(kind="none", n=0)))
+        out.append(dict(units=[dict(b=1, e=16, c=0)] + hb[:n // 2] + [dict(b=2, e=16, c=0)] + hb[:n // 2 + 3], tail=dict(kind="event", n=20)))
     if limit <= 300:
         # many small events: the buffer (at its maximum size) fills again and again, its end falling on every offset of a unit
         for off in range(0, 12 if deep else 6):
-            units = [dict(b=(i + off) % 3 * 2, e=11 + (i * 7 + off * 5) % 23) for i in range(10)]
+            units = [dict(b=(i + off) % 3 * 2, e=11 + (i * 7 + off * 5) % 23, c=0) for i in range(10)]
             out.append(dict(units=units, tail=dict(kind="none", n=0)))
             out.append(dict(units=units[:7], tail=dict(kind="event", n=20)))
     return out
